@@ -872,6 +872,22 @@ impl Prioritize {
                                 // response, which requires sending all queued DATA.
                                 if reason != Reason::NO_ERROR {
                                     stream.pending_send.push_front(buffer, frame.into());
+                                    #[cfg(feature = "verif-hooks")]
+                                    let _verif =
+                                        crate::verif::enter("prio.pop_scheduled_reset", || {
+                                            vec![
+                                                u32::from(stream.id) as i64,
+                                                stream.state.is_send_streaming() as i64,
+                                                stream.state.is_send_closed() as i64,
+                                                stream.state.is_closed() as i64,
+                                                stream.is_pending_open as i64,
+                                                isize::from(stream.send_flow.window_size_raw())
+                                                    as i64,
+                                                isize::from(stream.send_flow.available()) as i64,
+                                                stream.requested_send_capacity as i64,
+                                                stream.buffered_send_data as i64,
+                                            ]
+                                        });
                                     self.clear_queue(buffer, &mut stream);
                                     self.reclaim_all_capacity(&mut stream, counts);
                                     self.pending_send.push(&mut stream);
